@@ -189,7 +189,19 @@ Proof. apply views_set_eq, replace_seq_from_build. Qed.
 
 (* an accepted case: the rows pymtl3 reports after the replacement sequence are exactly the rows of the design built
    from scratch with the replacements in place *)
-Theorem case_ok_sound H rs obs : case_ok (H, rs, obs) = true -> set_eq obs (views (meta (replace_seq_hier H rs))).
+Lemma rows_subset_fast_sound a b : rows_subset_fast a b = true -> forall r, In r a -> In r b.
 Proof.
-  unfold case_ok. intros E. apply andb_true_iff in E as [E _]. apply rows_eq_spec in E. now apply set_eq_sym.
+  unfold rows_subset_fast. rewrite andb_true_iff, !forallb_forall. intros [T B] r Hr.
+  specialize (T r Hr). apply existsb_exists in T as (t & Ht & Et). apply String.eqb_eq in Et.
+  specialize (B t Ht). cbv zeta in B. rewrite forallb_forall in B.
+  assert (Hb : In r (bucket t a)) by (unfold bucket; apply filter_In; split; [exact Hr|now apply String.eqb_eq]).
+  specialize (B r Hb). apply row_mem_In in B. unfold bucket in B. apply filter_In in B. tauto.
+Qed.
+Lemma rows_eq_fast_sound a b : rows_eq_fast a b = true -> set_eq a b.
+Proof.
+  unfold rows_eq_fast. rewrite andb_true_iff. intros [H1 H2] r. split; apply rows_subset_fast_sound; assumption.
+Qed.
+Theorem case_ok_sound H rs obs both : case_ok (H, rs, obs, both) = true -> set_eq obs (views (meta (replace_seq_hier H rs))).
+Proof.
+  unfold case_ok. intros E. apply andb_true_iff in E as [E _]. apply rows_eq_fast_sound in E. now apply set_eq_sym.
 Qed.
